@@ -11,6 +11,7 @@ CONSTANTS
   Depth = 2
   SeqLevels <- QuickLevels
   SeqFlags <- QuickFlags
+  SeqRewire = FALSE
   SeqNames <- SecNames
 INVARIANT ClosedSilent
 INVARIANT OpenShows
